@@ -51,7 +51,7 @@ CONFIG = {
                  'tau:unreachable', 'tau:shuffle', 'tau:retype',
                  'tau:distinct_objects', 'tau:atoms_long', 'tau:atoms_related',
                  'logic:CTL', 'logic:LTL', 'logic:CTLS', 'bulk:CTL',
-                 'block:long_names'],
+                 'block:long_names', 'block:cyclic_ltl'],
     'rule': ('cases = (structure, formula, logic) from a seeded list; each '
              'evaluated under every hash seed of the run (fresh interpreter '
              'per seed) and under 6 transformations in-process. non-trivial '
@@ -490,9 +490,58 @@ def long_name_block(ctx):
             k += 1
 
 
+def cyclic_ltl_block(ctx):
+    """Cyclic structures with 5-6 states and tail-dependent LTL / CTL*
+    formulas (F G, G F, U G): the fulfilling cycle spans several tableau
+    atoms, so SCC search order matters.  Every case runs under two rounds of
+    all transformations."""
+    P, Q, N, PQ = ATOM_NAMES['p'], ATOM_NAMES['q'], None, None
+    p, q = ('ap', P), ('ap', Q)
+    forms = [('LTL', ('A', ('F', ('G', ('or', p, q))))),
+             ('LTL', ('A', ('G', ('F', p)))), ('LTL', ('A', ('F', ('G', p)))),
+             ('LTL', ('A', ('U', p, ('G', q)))),
+             ('LTL', ('A', ('imply', ('G', ('F', p)), ('G', ('F', q))))),
+             ('CTLS', ('E', ('G', ('F', ('and', p, ('not', q)))))),
+             ('CTLS', ('A', ('F', ('G', ('or', p, q))))),
+             ('CTLS', ('E', ('and', ('F', ('G', p)), ('G', ('F', q)))))]
+    shapes = []
+    for n in (5, 6):
+        ring = [1 << ((i + 1) % n) for i in range(n)]
+        chord = list(ring)
+        chord[0] |= 1 << 2
+        chord[3] |= 1 << 1
+        two = list(ring)
+        two[n - 1] = 1 << (n - 2)            # a tail into a 2-cycle
+        two[n - 2] |= 1 << (n - 1)
+        for succ in (ring, chord, two):
+            for lab in range(2):
+                labels = []
+                for i in range(n):
+                    l = set()
+                    if (i + lab) % 3 != 0:
+                        l.add(P)
+                    if (i * 2 + lab) % 5 == 0:
+                        l.add(Q)
+                    labels.append(frozenset(l))
+                shapes.append((succ, labels))
+    k = 0
+    for si, (succ, labels) in enumerate(shapes):
+        for logic, t in forms:
+            if ctx.mine(k):
+                names = ['c%d' % i for i in range(len(succ))] if si % 2 \
+                    else list(range(len(succ)))
+                nk = NK(names, succ, labels)
+                base, _ = run_base(logic, nk, t)
+                LOG.sig['block:cyclic_ltl'] += 1
+                r = gen.rng(ctx.seed, PROP, ('cyc', k))
+                meta(r, 3000000 + k, logic, nk, t, base)
+            k += 1
+
+
 def run(ctx):
     attach()
     long_name_block(ctx)
+    cyclic_ltl_block(ctx)
     bulk_ctl(ctx)
     ncases = 320 if ctx.quick else 4800
     nseeds = CONFIG['hashseeds'][ctx.tier]
@@ -569,6 +618,15 @@ def replay(ctx, rep):
     attach()
     c = rep['case']
     idx = c['case_index']
+    if idx >= 3000000:
+        from ..mcwork import to_tuple, nk_from_json
+        nk = nk_from_json(c['K'], real_names=True)
+        t = to_tuple(c['formula'])
+        for attempt in range(12):
+            base, od = run_base(c['logic'], nk, t)
+            meta(gen.rng(ctx.seed, PROP, ('replay', attempt)), idx,
+                 c['logic'], nk, t, base)
+        return
     if idx >= 2000000:
         class _C(object):
             pass
